@@ -32,7 +32,8 @@ RULE = ('seeded operation histories (3..30 ops) over one writable VPK in a priva
         'arch_index in {None,0,1,2} per write; sizes drawn from {0,1,limit-1,limit,limit+1,65535,65536,65537, small, '
         '<=70000, <=300 KiB}; names are (folder,name,ext) triples over an ASCII alphabet incl. mixed case, space, '
         'punctuation and control characters with empty folder / name / ext parts, addressed in string, 2-tuple and '
-        '3-tuple form; plus a CRC-forging engine (new content with the same CRC32 as the stored content). '
+        '3-tuple form; plus a fixed placement matrix (kind x limit x arch_index x every boundary size, then append-mode '
+        'overwrite and delete) and a CRC-forging engine (new content with the same CRC32 as the stored content). '
         'Restrictions (format cannot carry them / outside the statement): no part contains ".", "/", "\\\\" or NUL; '
         'no part is exactly one space (the format encodes the empty string as " "); at least one part is non-empty; '
         'an archive is reopened in r/a mode only when its directory has been written since it was created or truncated. '
